@@ -1,7 +1,7 @@
 //! C18 — wire stability: proofs and generators of the reference revision stay valid.
 use crate::choices::Choices;
 use crate::curves::{Curve, CurveTag};
-use crate::drive::{run_prover, run_verifier, ProveOpts, VerifyOpts};
+use crate::drive::{run_batch, run_prover, run_verifier, BatchMember, ProveOpts, VerifyOpts};
 use crate::drive_ref::{ref_prove, ref_verify};
 use crate::fixtures::{self, fx18_program, fx18_wrong, normalise_log, FX_COUNT};
 use crate::mirror::{ProofMirror, POINT_NAMES, SCALAR_NAMES};
@@ -49,6 +49,10 @@ fn fixture_case<G: CurveTag>(fx: &Value, col: &mut Collector) -> Result<(), Fail
     let v = run_verifier::<G>(&prog, &coms, &proof, &VerifyOpts { record: true, cap: Some(need), ..Default::default() });
     if !v.accepted() {
         return Err(fail("fixture-rejected", format!("a proof recorded from the reference revision is no longer accepted: {}", v.verdict())));
+    }
+    let (br, bp) = run_batch::<G>(&[BatchMember { prog: &prog, commitments: &coms, proof: &proof }], need, 5);
+    if bp.is_some() || !matches!(br, Some(Ok(()))) {
+        return Err(fail("fixture-rejected-by-batch_verify", format!("batch_verify no longer accepts a proof recorded from the reference revision: {:?} {:?}", br, bp)));
     }
     // (2) the verifier's transcript is the recorded one, bit for bit
     let log = normalise_log(&v.log, v.main_id);
